@@ -5,6 +5,7 @@ transcribes: the walk starts at `min(height, tip height + 1)`, goes down, stops 
 missing index or body, and the only write is `PruneBlock`.
 -/
 import Verif.Extracted.ChainSkel
+import Verif.Extracted.DBSkel
 
 namespace Verif.C19Src
 open Verif.Skel Verif.Extracted
@@ -40,5 +41,11 @@ theorem src_addblocks_skips_pruned :
 theorem src_blockAndParent_found_flag :
     skel_blockAndParent = [.call "s.Block" [], .call "s.State" [], .ret ["v", "v", "v", "v:&&"]] ∧
     matchPrefix [isCall "blockAndParent", (· == .ifc [] ["!"]), isRet ["E"]] skel_revertTip = true := by decide
+
+
+/-- `DBStore.PruneBlock` rewrites the block's record (header kept, body and supplement dropped:
+`putBlock(bh, nil, nil)`) and touches nothing else — no state, no index, no element -/
+theorem src_store_prune_block :
+    skel_DBStore_PruneBlock = [.call "db.getBlock" [], .ifc [] [], .call "db.putBlock" [], .done] := by decide
 
 end Verif.C19Src
